@@ -123,6 +123,38 @@ def source_info(path):
     return pk.unresolved(), members
 
 
+_SRC_OBJS = {}
+
+
+def _source_objects(source_members):
+    """{object id: (first payload re-serialised, sorted header object_references)} of a source document."""
+    k = id(source_members)
+    hit = _SRC_OBJS.get(k)
+    if hit is not None and hit[0] is source_members:
+        return hit[1]
+    out = {}
+    for n, b in source_members.items():
+        if not pkg.is_iwa_name(n):
+            continue
+        try:
+            segs = pkg.segments(pkg.unframe(b))
+        except Exception:  # noqa: BLE001 - an undecodable source member has no objects to compare with
+            continue
+        for ai, payloads in segs:
+            if not ai.message_infos:
+                continue
+            cls = pkg.message_class(ai.message_infos[0].type)
+            try:
+                pl = cls.FromString(payloads[0]).SerializeToString() if cls is not None else payloads[0]
+            except Exception:  # noqa: BLE001
+                pl = payloads[0]
+            out[ai.identifier] = (pl, sorted(x for m in ai.message_infos for x in m.object_references))
+    if len(_SRC_OBJS) > 8:
+        _SRC_OBJS.clear()
+    _SRC_OBJS[k] = (source_members, out)
+    return out
+
+
 def validate(path, source_unresolved=None, source_members=None):
     pk = Package(path, source_members)
     probs = list(pk.problems)
@@ -167,6 +199,24 @@ def validate(path, source_unresolved=None, source_members=None):
         for fn in sorted(data_files):
             if f"Data/{fn}" not in pk.names and source_members is not None and f"Data/{fn}" in source_members:
                 probs.append(("data-file-missing", f"Data/{fn} is listed and was present in the source but is missing"))
+    # -- archive headers: every reference held by an object the library created or rewrote is listed in the
+    # object_references of its archive header (what Numbers resolves references from).  Objects carried over
+    # from the source unchanged (same payload, same header list) are exempt, whatever their header says.
+    if source_members is not None:
+        so = _source_objects(source_members)
+        stale = []
+        for ident, (name, _ai, msg) in objs.items():
+            if msg is None or name in pk.inherited:
+                continue
+            hdr = pk.header_refs.get(ident, [])
+            src = so.get(ident)
+            if src is not None and src[1] == sorted(hdr) and src[0] == msg.SerializeToString():
+                continue
+            miss = sorted({x for x in pkg.walk_references(msg, []) if x} - set(hdr))
+            if miss:
+                stale.append(f"{msg.DESCRIPTOR.full_name}#{ident} holds {miss[:3]} ({'rewritten' if src is not None else 'new'} object)")
+        if stale:
+            probs.append(("header-references-not-refreshed", f"{len(stale)} created/rewritten objects hold references their archive header does not list: {'; '.join(stale[:3])}"))
     # -- references -----------------------------------------------------------------------------
     unresolved = pk.unresolved()
     if source_unresolved is not None:
